@@ -206,6 +206,12 @@ func Main(args []string) int {
 	}
 	add("empty", "")
 	add("newline-only", "\n")
+	// the PRI token: negative, signed, out of range, non-canonical, not a number - with and without the version digit
+	for _, pri := range []string{"-1", "-3", "-7", "-8", "-9", "-0", "+5", "0", "00", "013", "0013", "191", "192", "199", "999", "1000", "99999999999999999999", "", " ", "1x", "x", "1 3", "٣", "0x10"} {
+		for _, ver := range []string{"1", "", "2", "11", "-1"} {
+			add("pri", "<"+pri+">"+ver+" 2020-07-20T03:48:20.154Z web01 appServ 101 main.log - a message of the usual kind")
+		}
+	}
 	// (b) every field x every value class, single; pairs over a reduced class set
 	vals := valueClasses(true)
 	for f := 0; f < 9; f++ {
